@@ -15,12 +15,16 @@ Open Scope nat_scope.
 
 (** [memo_run_has_cause] + [effect_runs_once_per_change] + [at_most_once_per_change]: in every
     reachable state, for all programs, histories and schedules, no body invocation other than a
-    first one ever found its cause list empty (repaired EffectInner::update_if_necessary). *)
-Theorem C09_no_invocation_without_cause :
-  forall p, wf_prog p -> pure_effects p ->
+    first one ever found its cause list empty (repaired EffectInner::update_if_necessary).
+    Effects may write signals; excluded is the class of the open finding F-C02-d
+    ([self_feeding p]: an effect writes a signal of its own static cone), for which the
+    invariant behind this proof does not hold (no C09 violation is known there: the oracle
+    found none on the generated self-feeding programs). *)
+Theorem C09_no_invocation_without_cause_except_known :
+  forall p, wf_prog p -> ~ self_feeding p ->
   forall ops, wf_ops p ops -> nocause (run_fixed p ops) = 0.
-Proof. exact no_causeless_run. Qed.
-Print Assumptions C09_no_invocation_without_cause.
+Proof. exact no_causeless_run_except_known. Qed.
+Print Assumptions C09_no_invocation_without_cause_except_known.
 
 (** what the counter counts *)
 Theorem C09_counter_counts_causeless_invocations :
